@@ -213,3 +213,30 @@ package ocidir
 //@   ensures index-entries-marked: ok && err == nil ==> forall(k, 0, len(ml), dlm[string(ml[k].Digest)])
 //@   ensures layers-marked: ok__2 && err == nil ==> forall(k, 0, len(layers), dlm[string(layers[k].Digest)])
 //@   ensures config-marked: ok__2 && err == nil && $ret(GetConfig, 1) == nil ==> dlm[string($ret(GetConfig, 0).Digest)]
+
+// ---- C07: write discipline of the layout (what makes a crash at any point harmless) ----
+// (a) no file of the layout is created or truncated in place: content reaches its final name only
+//     by os.Rename of a temp file; (b) the temp file was created by os.CreateTemp in this call,
+//     its last write and its close reported no error; (c) ordering: manifest file before index
+//     entry, index rewrite before file removal (the C04 contracts above, also counted here).
+//@ callsite os.Create(name)
+//@   prop C07
+//@   name os.Create/in-place
+//@   in ~/scheme/ocidir
+//@   requires never-create-or-truncate-in-place: false
+//@ callsite os.WriteFile(name, data, perm)
+//@   prop C07
+//@   name os.WriteFile/in-place
+//@   in ~/scheme/ocidir
+//@   requires never-create-or-truncate-in-place: false
+//@ callsite os.OpenFile(name, flag, perm)
+//@   prop C07
+//@   name os.OpenFile/in-place
+//@   in ~/scheme/ocidir
+//@   requires never-create-or-truncate-in-place: false
+//@ callsite os.Rename(oldpath, newpath)
+//@   prop C07
+//@   name os.Rename/complete-temp-file
+//@   in ~/scheme/ocidir
+//@   requires temp-file-of-this-call: $tmpFile != nil && $fileWriteDst == $tmpFile && $fileClosed == $tmpFile
+//@   requires written-and-closed-without-error: $fileWriteOK && $fileCloseOK
